@@ -11,6 +11,14 @@ package main
 //        ExcelDateToTime on the stored value.
 //        result:  text | num e=<within error bound> S=<day>:<sec>|- r=<Y M D h m s ns>
 //   dec <sys> <bits>     ExcelDateToTime on an arbitrary float64
+//   cell <wb> <pre> <y> <m> <d> <h> <mi> <s> <ns> <off> <zone>
+//                        public API on a fresh workbook: wb = n (workbook properties untouched), 0, 1
+//                        (SetWorkbookProps Date1904), pre = style already on the cell (0 none, 1 bold,
+//                        2 custom number format + bold, 3 built-in format 14 + bold), SetCellValue(time);
+//                        result: bits=<float64 bits of the raw value|text> fmt=<NumFmt> custom=<0|1> bold=<0|1>
+//   dur <ns> <bits>      SetCellValue(time.Duration): raw value (float32-formatted) and style;
+//                        result: e=<within 2^-23 relative> k=<nearest second|-> fmt=<NumFmt>
+//   edt <sys> <bits>     ExcelDateToTime (exported, with the negative guard) on an arbitrary float64
 //   decf <sys> <bits>    timeFromExcelTime (hook, ExcelDateToTime without the negative guard) on an arbitrary
 //                        float64, compared with the model's float-level transcription run on Lean's Float
 //   encf <sys> <unixsec> <ns>   timeToExcelTime (hook) on the instant: float64 bit pattern of the result,
@@ -477,6 +485,152 @@ func c19dec(r *Run, sys bool, x float64) {
 	}
 }
 
+// c19cell: the glue around setCellTime on the public path: which date-system flag is used, which
+// default style is created, what happens to a style already on the cell.
+func c19cell(r *Run, wb string, pre int, t time.Time, zone string) {
+	y, mo, d := t.Date()
+	h, mi, s := t.Clock()
+	_, off := t.Zone()
+	op := fmt.Sprintf("cell %s %d %d %d %d %d %d %d %d %d %s", wb, pre, y, int(mo), d, h, mi, s, t.Nanosecond(), off, zone)
+	res := "PANIC"
+	func() {
+		defer func() { _ = recover() }()
+		f := xl.NewFile()
+		defer f.Close()
+		switch wb {
+		case "0", "1":
+			v := wb == "1"
+			if err := f.SetWorkbookProps(&xl.WorkbookPropsOptions{Date1904: &v}); err != nil {
+				res = "ERR"
+				return
+			}
+		}
+		var st *xl.Style
+		cf := "yyyy-mm-dd"
+		switch pre {
+		case 1:
+			st = &xl.Style{Font: &xl.Font{Bold: true}}
+		case 2:
+			st = &xl.Style{CustomNumFmt: &cf, Font: &xl.Font{Bold: true}}
+		case 3:
+			st = &xl.Style{NumFmt: 14, Font: &xl.Font{Bold: true}}
+		}
+		if st != nil {
+			id, err := f.NewStyle(st)
+			if err != nil || f.SetCellStyle("Sheet1", "B2", "B2", id) != nil {
+				res = "ERR"
+				return
+			}
+		}
+		if err := f.SetCellValue("Sheet1", "B2", t); err != nil {
+			res = "ERR"
+			return
+		}
+		raw, _ := f.GetCellValue("Sheet1", "B2", xl.Options{RawCellValue: true})
+		ct, _ := f.GetCellType("Sheet1", "B2")
+		bits := "text"
+		if x, err := strconv.ParseFloat(raw, 64); err == nil && ct != xl.CellTypeInlineString && ct != xl.CellTypeSharedString {
+			bits = fmt.Sprintf("%016x", math.Float64bits(x))
+		}
+		si, _ := f.GetCellStyle("Sheet1", "B2")
+		got, _ := f.GetStyle(si)
+		nf, custom, bold := 0, 0, 0
+		if got != nil {
+			nf = got.NumFmt
+			if got.CustomNumFmt != nil {
+				custom = 1
+			}
+			if got.Font != nil && got.Font.Bold {
+				bold = 1
+			}
+		}
+		res = fmt.Sprintf("bits=%s fmt=%d custom=%d bold=%d", bits, nf, custom, bold)
+	}()
+	r.Op(op, res)
+	r.Case(op, true)
+	r.Stat("cell:wb=" + wb + ":pre=" + strconv.Itoa(pre))
+}
+
+// c19dur: time.Duration cells. The stored text is float32-formatted; the harness measures its distance
+// to the exact seconds/86400 and reads the nearest second back.
+func c19dur(r *Run, ns int64) {
+	d := time.Duration(ns)
+	head := fmt.Sprintf("dur %d", ns)
+	bits, res := "-", "PANIC"
+	var shown string
+	func() {
+		defer func() { _ = recover() }()
+		f := xl.NewFile()
+		defer f.Close()
+		if err := f.SetCellValue("Sheet1", "A1", d); err != nil {
+			res = "ERR"
+			return
+		}
+		raw, _ := f.GetCellValue("Sheet1", "A1", xl.Options{RawCellValue: true})
+		shown, _ = f.GetCellValue("Sheet1", "A1")
+		x, err := strconv.ParseFloat(raw, 64)
+		if err != nil {
+			res = "text"
+			return
+		}
+		bits = fmt.Sprintf("%016x", math.Float64bits(x))
+		exact := new(big.Rat).SetFrac(big.NewInt(ns), c19nsDay)
+		df := new(big.Rat).Sub(new(big.Rat).SetFloat64(x), exact)
+		df.Abs(df)
+		tol := new(big.Rat).Abs(exact)
+		tol.Mul(tol, big.NewRat(1, 1<<23))
+		e := 0
+		if df.Cmp(tol) <= 0 {
+			e = 1
+		}
+		k := "-"
+		if ns >= 0 && ns%1000000000 == 0 && ns < 4194304*1000000000 {
+			_, sec := c19dayAndSecond(x - math.Floor(x))
+			k = strconv.FormatInt(int64(math.Floor(x))*86400+sec, 10)
+		}
+		si, _ := f.GetCellStyle("Sheet1", "A1")
+		got, _ := f.GetStyle(si)
+		nf := 0
+		if got != nil {
+			nf = got.NumFmt
+		}
+		res = fmt.Sprintf("e=%d k=%s fmt=%d", e, k, nf)
+	}()
+	ln := r.Op(head+" "+bits, res)
+	r.Case(head, true)
+	r.Stat("dur")
+	// direct oracle (beyond the property text, which speaks of time.Time only): whole-second durations
+	// below 2^22 s (48.5 days) read back to the second; longer ones are counted, not failed
+	if ns >= 0 && ns%1000000000 == 0 && strings.HasPrefix(res, "e=") {
+		want := ns / 1000000000
+		if ns < 4194304*1000000000 {
+			if !strings.Contains(res, fmt.Sprintf(" k=%d ", want)) || !strings.HasPrefix(res, "e=1") {
+				r.Fail("dur:second-lost", fmt.Sprintf("SetCellValue(%s) stores a value that does not identify %d s: %s", d, want, res), ln, head+" -")
+			}
+		} else if hh := fmt.Sprintf("%d:%02d:%02d", want/3600, want/60%60, want%60); shown != hh {
+			r.Stat("dur:long-duration-second-lost(float32 text; outside the property)")
+			if len(r.Notes) < 8 {
+				r.Notes = append(r.Notes, fmt.Sprintf("duration %s is stored with float32 precision and renders %q", d, shown))
+			}
+		}
+	}
+}
+
+// c19edt: the exported decoder with its negative-input guard.
+func c19edt(r *Run, sys bool, x float64) {
+	op := fmt.Sprintf("edt %s %016x", c19sysS(sys), math.Float64bits(x))
+	t, err, p := c19decode(x, sys)
+	res := "ERR"
+	if p {
+		res = "PANIC"
+	} else if err == nil {
+		res = "ok " + c19fields(t)
+	}
+	r.Op(op, res)
+	r.Case(op, err == nil)
+	r.Stat("edt")
+}
+
 // c19decf ties the float-level decoder model (which float64 operations, in which order, on both
 // code paths) to the code: arbitrary floats, not only whole seconds.
 func c19decf(r *Run, sys bool, x float64) {
@@ -911,6 +1065,85 @@ func runC19(r *Run, rng *Rng, replay string) {
 		}
 	}
 
+	// 3d. glue: workbook flag + default style on the public path; Duration cells; exported decoder ---------
+	{
+		nC := 1500
+		if thorough {
+			nC = 12000
+		}
+		wbs := []string{"n", "0", "1"}
+		for i := 0; i < nC; i++ {
+			u := lo + int64(rng.U64()%uint64(hi-lo+1))
+			if rng.Chance(20) {
+				u = time.Date(1899, 12, 28, 0, 0, 0, 0, time.UTC).Unix() + int64(rng.Intn(5*365*86400))
+			}
+			z := c19zones[rng.Intn(len(c19zones))]
+			w := time.Unix(u, 0).UTC()
+			day, hh, mm, ss := w.Day(), w.Hour(), w.Minute(), w.Second()
+			switch rng.Intn(5) {
+			case 0:
+				day = 1
+			case 1:
+				hh, mm, ss = 0, 0, 0
+			case 2:
+				day, hh, mm, ss = 1, 0, 0, 0
+			}
+			t := time.Date(w.Year(), w.Month(), day, hh, mm, ss, 0, z.loc)
+			c19cell(r, wbs[i%3], (i/3)%4, t, z.name)
+		}
+		for _, wb := range wbs { // the first instants of both systems, every pre-style
+			for pre := 0; pre < 4; pre++ {
+				c19cell(r, wb, pre, time.Date(1904, 1, 1, 0, 0, 0, 0, time.UTC), "UTC")
+				c19cell(r, wb, pre, time.Date(1899, 12, 31, 0, 0, 0, 0, time.UTC), "UTC")
+				c19cell(r, wb, pre, time.Date(1899, 12, 30, 23, 59, 59, 0, time.UTC), "UTC")
+				c19cell(r, wb, pre, time.Date(2024, 12, 1, 13, 0, 0, 0, time.UTC), "UTC")
+			}
+		}
+		nDu := 3000
+		if thorough {
+			nDu = 40000
+		}
+		for _, ns := range []int64{0, 1, 999999999, 1000000000, 59000000000, 60000000000, 61000000000, 3600000000000, 86399000000000,
+			86400000000000, 86401000000000, 1500000000, -60000000000, -1000000000, 3600001000000000, 4194303000000000, 4194304000000000,
+			17280001000000000, 8640000001000000000} {
+			c19dur(r, ns)
+		}
+		for i := 0; i < nDu; i++ {
+			var ns int64
+			switch rng.Intn(5) {
+			case 0:
+				ns = int64(rng.Intn(86400)) * 1000000000
+			case 1:
+				ns = int64(rng.Intn(1440)) * 60000000000
+			case 2:
+				ns = int64(rng.Intn(4194304)) * 1000000000
+			case 3:
+				ns = int64(rng.U64() % 4194304000000000)
+			default:
+				ns = int64(rng.Intn(100000000)) * 1000000000
+			}
+			c19dur(r, ns)
+		}
+		nE := 5000
+		if thorough {
+			nE = 50000
+		}
+		for _, x := range []float64{0, math.Copysign(0, -1), -1e-300, -1e-9, -1, 1e-9, 61.5, 62, 45000.5} {
+			c19edt(r, false, x)
+			c19edt(r, true, x)
+		}
+		for i := 0; i < nE; i++ {
+			x := rng.F64() * 2958466
+			switch rng.Intn(4) {
+			case 0:
+				x = -x
+			case 1:
+				x = rng.F64() * 62
+			}
+			c19edt(r, rng.Bool(), x)
+		}
+	}
+
 	// 4. calendar and Fliegel sweeps ---------------------------------------------------------------
 	civStride := int64(97)
 	if thorough {
@@ -975,6 +1208,24 @@ func c19replay(r *Run, path string) {
 			b, err := strconv.ParseUint(w[2], 16, 64)
 			if err == nil {
 				c19dec(r, w[1] == "1", math.Float64frombits(b))
+			}
+		case "cell":
+			if len(w) >= 12 {
+				loc := c19zoneByName(w[11], atoi(w[10]))
+				t := time.Date(atoi(w[3]), time.Month(atoi(w[4])), atoi(w[5]), atoi(w[6]), atoi(w[7]), atoi(w[8]), atoi(w[9]), loc)
+				c19cell(r, w[1], atoi(w[2]), t, w[11])
+			}
+		case "dur":
+			if len(w) >= 2 {
+				n, _ := strconv.ParseInt(w[1], 10, 64)
+				c19dur(r, n)
+			}
+		case "edt":
+			if len(w) >= 3 {
+				b, err := strconv.ParseUint(w[2], 16, 64)
+				if err == nil {
+					c19edt(r, w[1] == "1", math.Float64frombits(b))
+				}
 			}
 		case "decf":
 			if len(w) >= 3 {
